@@ -17,8 +17,10 @@ import Rooc.Proofs.ExpLemmasSound
 import Rooc.Proofs.ExpLemmasDiv
 import Rooc.Proofs.ExpLemmasTruth
 import Rooc.Proofs.ExpLemmasReflect
+import Rooc.Proofs.ExpLemmasDefined
 namespace Rooc.Props.C10
 open Rooc Rooc.Exp Rooc.Sem
+set_option linter.unusedSimpArgs false
 
 variable {K : Type} [Field K] [LinearOrder K] [IsStrictOrderedRing K] [FloorRing K]
 
@@ -102,7 +104,7 @@ theorem simplify_counterexample :
       eval ρ e = some 1 ∧ eval ρ (simplify e) = some 2 ∧ (1 : K) ≠ 2 ∧ ¬ LogicOperands01 ρ e := by
   refine ⟨.and [.var "x", .num (.fin 1)], fun _ => 2, ?_, ?_, by norm_num, ?_⟩
   · simp [eval, evalList, truthy_eq]
-  · simp [simplify, naryCore, naryFlatten, naryScan, numTruthy, eval]
+  · simp [simplify, naryCore, naryStep, naryKeep, mayBeUndefined, mayBeUndefinedAny, naryFlatten, naryScan, numTruthy, eval]
   · simp [LogicOperands01, LogicOperands01List, Is01, eval]
 
 /-- the same defect through the binary spelling and for `or`: `x or 0 ↦ x`. -/
@@ -111,16 +113,77 @@ theorem simplify_counterexample_or :
       eval ρ e = some 1 ∧ eval ρ (simplify e) = some 2 := by
   refine ⟨.bin .or (.var "x") (.num (.fin 0)), fun _ => 2, ?_, ?_⟩
   · simp [eval, binVal, truthy_eq]
-  · simp [simplify, naryCore, naryFlatten, naryScan, numTruthy, eval]
+  · simp [simplify, naryCore, naryStep, naryKeep, mayBeUndefined, mayBeUndefinedAny, naryFlatten, naryScan, numTruthy, eval]
 
-/-- The converse of value preservation is false as well: simplification can turn an expression
-that is undefined at every assignment into a defined one (`0 * (x / 0) ↦ 0`). -/
+/-! ## simplify: definedness in both directions -/
+
+/-- PARTIAL (strongest true form of "simplify neither creates nor removes definedness"): under
+`LogicOperands01 ρ e` and finite literals (`finiteLits`, syntactic), `simplify e` has exactly the
+denotation of `e` at ρ — defined iff defined, with the same value.  Both hypotheses are needed:
+`simplify_defined_counterexample_forward`, `_converse` (the `x and 1 ↦ x` collapse changes a divisor)
+and `simplify_defines_undefined_counterexample` (an infinite literal under `0 * _`).  Holds since
+rooc 9f62afd (before, `0 * (x / 0) ↦ 0` created definedness). -/
+theorem simplify_eval_eq_partial (ρ : String → K) (e : Exp (Ext K))
+    (h01 : LogicOperands01 ρ e) (hfin : finiteLits e = true) :
+    eval ρ (simplify e) = eval ρ e :=
+  simplify_eval_eq ρ e h01 hfin
+
+theorem simplify_defined_iff_partial (ρ : String → K) (e : Exp (Ext K))
+    (h01 : LogicOperands01 ρ e) (hfin : finiteLits e = true) :
+    (eval ρ (simplify e)).isSome = (eval ρ e).isSome := by
+  rw [simplify_eval_eq ρ e h01 hfin]
+
+/-- PARTIAL. The converse direction alone: simplification creates no definedness. -/
+theorem simplify_defined_conv_partial (ρ : String → K) (e : Exp (Ext K)) (v : K)
+    (h01 : LogicOperands01 ρ e) (hfin : finiteLits e = true)
+    (hv : eval ρ (simplify e) = some v) : eval ρ e = some v := by
+  rw [← simplify_eval_eq ρ e h01 hfin]; exact hv
+
+/-- FULL (auxiliary). Finite literals stay finite (exact arithmetic: no overflow), and a term with
+finite literals on which the Rust guard `may_be_undefined` answers `false` is defined everywhere. -/
+theorem simplify_finiteLits (e : Exp (Ext K)) (h : finiteLits e = true) :
+    finiteLits (simplify e) = true := finiteLits_simplify e h
+theorem mayBeUndefined_complete (ρ : String → K) (e : Exp (Ext K)) (hfin : finiteLits e = true)
+    (h : mayBeUndefined e = false) : (eval ρ e).isSome := Def_of_total ρ e hfin h
+
+/-- Without `LogicOperands01` definedness is lost: `1 / ((x and 1) - 2)` is defined at `x = 2`
+(value −1) and is rewritten to `1 / (x - 2)`, undefined at `x = 2`. -/
+theorem simplify_defined_counterexample_forward :
+    ∃ (e : Exp (Ext K)) (ρ : String → K), finiteLits e = true ∧
+      eval ρ e = some (-1) ∧ eval ρ (simplify e) = none := by
+  refine ⟨.bin .div (.num (.fin 1)) (.bin .sub (.and [.var "x", .num (.fin 1)]) (.num (.fin 2))),
+    fun _ => 2, ?_, ?_, ?_⟩
+  · simp [finiteLits, finiteLitsL, isFin]
+  · simp [eval, evalList, binVal, truthy_eq]; norm_num
+  · simp [simplify, naryCore, naryStep, naryKeep, naryScan, naryFlatten, mayBeUndefined,
+      mayBeUndefinedAny, numTruthy, subCore, divCore, isNumEq, eval, binVal]
+
+/-- … and created: `1 / ((x and 1) - 1)` is undefined at `x = 2`, its simplification `1 / (x - 1)`
+is defined. -/
+theorem simplify_defined_counterexample_converse :
+    ∃ (e : Exp (Ext K)) (ρ : String → K), finiteLits e = true ∧
+      eval ρ e = none ∧ eval ρ (simplify e) = some 1 := by
+  refine ⟨.bin .div (.num (.fin 1)) (.bin .sub (.and [.var "x", .num (.fin 1)]) (.num (.fin 1))),
+    fun _ => 2, ?_, ?_, ?_⟩
+  · simp [finiteLits, finiteLitsL, isFin]
+  · simp [eval, evalList, binVal, truthy_eq]
+  · simp [simplify, naryCore, naryStep, naryKeep, naryScan, naryFlatten, mayBeUndefined,
+      mayBeUndefinedAny, numTruthy, subCore, divCore, isNumEq, eval, binVal]; norm_num
+
+/-- Without finite literals simplification still creates definedness: `0 * (x + inf)` is undefined
+at every assignment (the literal is not a number) and simplifies to `0`. -/
 theorem simplify_defines_undefined_counterexample :
     ∃ e : Exp (Ext K), (∀ ρ : String → K, eval ρ e = none) ∧
-      ∀ ρ : String → K, eval ρ (simplify e) = some 0 := by
-  refine ⟨.bin .mul (.num (.fin 0)) (.bin .div (.var "x") (.num (.fin 0))), ?_, ?_⟩
-  · intro ρ; simp [eval, binVal]
-  · intro ρ; simp [simplify, mulCore, divCore, isNumEq, eval]
+      (∀ ρ : String → K, eval ρ (simplify e) = some 0) ∧ finiteLits e = false := by
+  refine ⟨.bin .mul (.num (.fin 0)) (.bin .add (.var "x") (.num .pinf)), ?_, ?_, ?_⟩
+  · intro ρ; simp [eval]
+  · intro ρ; simp [simplify, mulCore, addCore, isNumEq, mayBeUndefined, Arith.eq, Ext.eq, eval]
+  · simp [finiteLits, isFin]
+
+/-- non-vacuity of `simplify_eval_eq_partial`: the repaired rule keeps `0 * (x / 0)`. -/
+example : simplify (.bin .mul (.num (.fin 0)) (.bin .div (.var "x") (.num (.fin 0))) : Exp (Ext K)) =
+    .bin .mul (.num (.fin 0)) (.bin .div (.var "x") (.num (.fin 0))) := by
+  simp [simplify, mulCore, divCore, isNumEq, mayBeUndefined, isNonzeroLit, Arith.ne]
 
 /-- non-vacuity of `simplify_sound_partial`: the hypothesis holds for an expression with an `and`
 node that `simplify` really rewrites. -/
@@ -129,7 +192,7 @@ example : ∃ (e : Exp (Ext K)) (ρ : String → K) (v : K),
   refine ⟨.and [.var "x", .num (.fin 1)], fun _ => 1, 1, ?_, ?_, ?_⟩
   · simp [LogicOperands01, LogicOperands01List, Is01, eval]
   · simp [eval, evalList, truthy_eq]
-  · simp [simplify, naryCore, naryFlatten, naryScan, numTruthy]
+  · simp [simplify, naryCore, naryStep, naryKeep, mayBeUndefined, mayBeUndefinedAny, naryFlatten, naryScan, numTruthy]
 
 /-! ## simplify: what holds in logical positions (truth values) -/
 
@@ -175,7 +238,7 @@ theorem simplify_truthiness_counterexample :
         truthy (2 : K) = true ∧ truthy (0 : K) = false ∧ truthShape e = false := by
   refine ⟨.bin .add (.and [.var "x", .num (.fin 1)]) (.num (.fin 1)), fun _ => -1, ?_, ?_, ?_, ?_, ?_⟩
   · simp [eval, evalList, binVal, truthy_eq]; norm_num
-  · simp [simplify, naryCore, naryFlatten, naryScan, numTruthy, addCore, eval, binVal]
+  · simp [simplify, naryCore, naryStep, naryKeep, mayBeUndefined, mayBeUndefinedAny, naryFlatten, naryScan, numTruthy, addCore, eval, binVal]
   · simp [truthy_eq]
   · simp [truthy_eq]
   · simp [truthShape, exactShape, isXorLike, isAndOr]
@@ -228,59 +291,58 @@ theorem simplify_reenter_iff {α : Type} [Arith α] (l r : Exp α) :
 example : simplify (.bin .add (.var "x") (.num (.fin 0)) : Exp (Ext K)) = .var "x" := by
   simp [simplify, addCore]
 example : NF (.and [.var "x", .var "y"] : Exp (Ext K)) := by
-  simp [NF, NFList, isNum, isSameKind, isAndNode]
+  simp [NF, NFList, isNum, isSameKind, isAndNode, naryStep, naryScan, mayBeUndefined, mayBeUndefinedAny]
 
 /-! ## simplify: divisions -/
 
-/-- PARTIAL. "A division by zero is never rewritten away" holds for *protected* divisions: if `e`
-contains a division whose divisor simplifies to the literal zero, and no operand of a `*`, `and`,
-`or` node on the path from the root simplifies to that node's absorbing constant (`ProtDiv`), then
-`simplify e` still contains a division by the literal zero.  Unprotected divisions are erased:
-`div_erased_counterexample`. -/
-theorem div_preserved_partial (e : Exp (Ext K)) (h : ProtDiv zeroDivisor e) :
+/-- FULL (since rooc 9f62afd). A division by the literal zero is never rewritten away: if `e`
+contains one — anywhere — so does `simplify e`. -/
+theorem div_preserved (e : Exp (Ext K)) (h : HasDivBy zeroDivisor e) :
+    HasDivBy zeroDivisor (simplify e) := by
+  refine HasDivBy_simplify (p := zeroDivisor) ?_ ?_ e (DivS_of_HasDivBy_zero e h)
+  · intro v hv; rw [arith_eq_zero_iff] at hv; subst hv; simp
+  · intro r hr; cases r <;> simp_all [zeroDivisor, badDivisor]
+
+/-- FULL. More generally every division whose divisor simplifies to the literal zero survives
+(`x / (1 - 1)`). -/
+theorem div_preserved_simplified (e : Exp (Ext K)) (h : DivS zeroDivisor e) :
     HasDivBy zeroDivisor (simplify e) := by
   refine HasDivBy_simplify (p := zeroDivisor) ?_ ?_ e h
   · intro v hv; rw [arith_eq_zero_iff] at hv; subst hv; simp
   · intro r hr; cases r <;> simp_all [zeroDivisor, badDivisor]
 
-/-- PARTIAL. The same for "a division by zero or by a non-constant": a protected division whose
-divisor does not simplify to a non-zero literal leaves a division with such a divisor. -/
-theorem div_preserved_nonconstant_partial (e : Exp (Ext K)) (h : ProtDiv badDivisor e) :
+/-- FULL. "A division by zero or by a non-constant is never rewritten away": if `e` contains a
+division whose divisor does not simplify to a non-zero literal (`DivS badDivisor`), then `simplify e`
+contains a division whose divisor is not a non-zero literal. -/
+theorem div_preserved_nonconstant (e : Exp (Ext K)) (h : DivS badDivisor e) :
     HasDivBy badDivisor (simplify e) := by
   refine HasDivBy_simplify (p := badDivisor) ?_ (fun _ h => h) e h
   intro v hv; rw [arith_eq_zero_iff] at hv; subst hv; simp
 
-/-- The defect: `0 * (x / 0)`, `0 and (1 / x)`, `1 or (x / 0)` all contain a bad division and
-simplify to a literal. -/
-theorem div_erased_counterexample :
-    ∃ e : Exp (Ext K), HasDivBy zeroDivisor e ∧ ¬ HasDivBy zeroDivisor (simplify e) ∧
-      ¬ ProtDiv zeroDivisor e := by
-  refine ⟨.bin .mul (.num (.fin 0)) (.bin .div (.var "x") (.num (.fin 0))), ?_, ?_, ?_⟩
-  · simp [HasDivBy, zeroDivisor]
-  · simp [simplify, mulCore, divCore, isNumEq, HasDivBy]
-  · simp [ProtDiv, simplify, isNumEq]
+/-- The former defect is gone in the model of the repaired code: `0 * (x / 0)`, `0 and (1 / x)`,
+`1 or (x / 0)` keep their division. -/
+theorem div_kept_under_absorbing :
+    HasDivBy zeroDivisor (simplify (.bin .mul (.num (.fin 0)) (.bin .div (.var "x") (.num (.fin 0)))
+      : Exp (Ext K))) ∧
+    HasDivBy badDivisor (simplify (.bin .and (.num (.fin 0)) (.bin .div (.num (.fin 1)) (.var "x"))
+      : Exp (Ext K))) ∧
+    HasDivBy zeroDivisor (simplify (.or [.num (.fin 1), .bin .div (.var "x") (.num (.fin 0))]
+      : Exp (Ext K))) :=
+  ⟨div_preserved _ (by simp [HasDivBy, zeroDivisor]),
+   div_preserved_nonconstant _ (by simp [DivS, simplify, badDivisor]),
+   div_preserved _ (by simp [HasDivBy, HasDivByList, zeroDivisor])⟩
 
-theorem div_erased_counterexample_and :
-    ∃ e : Exp (Ext K), HasDivBy badDivisor e ∧ ¬ HasDivBy badDivisor (simplify e) ∧
-      ¬ ProtDiv badDivisor e := by
-  refine ⟨.bin .and (.num (.fin 0)) (.bin .div (.num (.fin 1)) (.var "x")), ?_, ?_, ?_⟩
-  · simp [HasDivBy, badDivisor]
-  · simp [simplify, naryCore, naryFlatten, naryScan, numTruthy, divCore, isNumEq, HasDivBy]
-  · simp [ProtDiv, simplify, isLit, absorbing, numTruthy]
+/-- the hypothesis of `div_preserved_nonconstant` cannot be weakened to "the divisor is not a
+literal": a constant divisor is (rightly) folded, `x / (1 + 1) ↦ x / 2`. -/
+example : simplify (.bin .div (.var "x") (.bin .add (.num (.fin 1)) (.num (.fin 1))) : Exp (Ext K)) =
+    .bin .div (.var "x") (.num (.fin (1 + 1))) := by
+  simp [simplify, addCore, divCore, isNumEq]
 
-theorem div_erased_counterexample_or :
-    ∃ e : Exp (Ext K), HasDivBy zeroDivisor e ∧ ¬ HasDivBy zeroDivisor (simplify e) ∧
-      ¬ ProtDiv zeroDivisor e := by
-  refine ⟨.or [.num (.fin 1), .bin .div (.var "x") (.num (.fin 0))], ?_, ?_, ?_⟩
-  · simp [HasDivBy, HasDivByList, zeroDivisor]
-  · simp [simplify, naryCore, naryFlatten, naryScan, numTruthy, divCore, isNumEq, HasDivBy]
-  · simp [ProtDiv, simplify, isLit, absorbing, numTruthy]
-
-/-- non-vacuity of `div_preserved_partial`: `2 * (x / (1 - 1)) + 0` has a protected division whose
-divisor only becomes the literal zero after folding, and it survives. -/
-example : ProtDiv zeroDivisor
+/-- non-vacuity: `2 * (x / (1 - 1)) + 0` has a division whose divisor only becomes the literal zero
+after folding, and it survives. -/
+example : DivS zeroDivisor
     (.bin .add (.bin .mul (.num (.fin 2)) (.bin .div (.var "x")
       (.bin .sub (.num (.fin 1)) (.num (.fin 1))))) (.num (.fin 0)) : Exp (Ext K)) := by
-  simp [ProtDiv, simplify, subCore, divCore, isNumEq, zeroDivisor]
+  simp [DivS, simplify, subCore, zeroDivisor]
 
 end Rooc.Props.C10
